@@ -1,16 +1,26 @@
 (* C06 - Formatting yields a specification-valid empty volume for every accepted request.
-   Property theorems only: each is closed by [exact] of a lemma proved in Proofs/FormatProofs.v.
+   Property theorems only: each is closed by [exact] of a lemma proved in Proofs/FormatProofs.v (part 1),
+   Proofs/FormatImageProofs.v and Proofs/FormatImageAbs.v (part 2).
 
    Objects:  Model/Format.v      format_boot_sector_validated o ts  = the sizing code of src/boot_sector.rs
                                  (format_boot_sector) followed by the strict validate step of format_volume,
                                  debug-build arithmetic (every overflow / division by zero / failed assert = Panic)
              Spec/FormatSpec.v   builder_range (what the public builder can construct), the validity clauses
                                  (fmt_clauses / valid_format_geometry), written from the FAT specification
-   Scope:    the boot sector / geometry.  NOT covered here: the image-level statement (FAT copies, root directory,
-             FS-info, backup boot sector as written by format_volume decode to the empty volume); that part is
-             checked only on the implementation (tools/props/c06.py: format, mount, stats, list, dump). *)
+             Model/FormatImage.v  format_image o ts im0 = the device image after format_volume on a device holding im0
+                                 (every write of src/fs.rs format_volume in order, through the byte-level FAT stores of
+                                 Model/Fat.v); Spec/FormatImageSpec.v = where the structures lie
+   Scope:    part 1: the boot sector / geometry.  part 2 (theorems C06_image_...): the image-level clauses - boot-sector
+             copies agree, FAT contents, root directory empty apart from the label, free space, FS-info, frame, no panic -
+             for EVERY request of the builder, every 32-bit sector count and every initial device content.
+             At the very top of the FAT32 range (more than 0x0FFFFFF0 - 2 clusters, the 6 largest counts) format_fat marks
+             the clusters 0x0FFFFFF0.. Bad; the FS-info count excludes them (fix 9c17e57 of format_volume; before it the
+             sector counted them as free). *)
 From Coq Require Import NArith List.
-From FatVerif Require Import Model.Base Model.Format Spec.FormatSpec Proofs.FormatProofs.
+From FatVerif Require Import Model.Base Model.Slot Model.Table Spec.Image Model.Fat Model.Format Spec.FormatSpec
+  Model.FormatImage Spec.FormatImageSpec Proofs.TableProofs Proofs.FatProofs Proofs.FormatProofs Proofs.FormatImageProofs
+  Proofs.FormatImageAbs.
+From FatVerif Require Spec.Abs Spec.Wf.
 Import ListNotations.
 Open Scope N_scope.
 
@@ -151,6 +161,165 @@ Example ex_decode_fat32 : exists bs, format_boot_sector_validated default_option
                                      fmt_deserialize_boot ex_1gib_fat32_bytes = bs.
 Proof. eexists. split; vm_compute; reflexivity. Qed.
 
+(* ================================================================== part 2: the image format_volume writes
+   Common premises: a request the builder can construct, a 32-bit sector count, any initial device content (bytes < 256),
+   the request is accepted with boot sector [bs] and FAT type [t] (valid by part 1), and [im] is the device image
+   afterwards. *)
+
+(* a. sector 0 = the serialized boot sector, zero up to the end of the logical sector; FAT32: the backup sector
+      (sector 6) is a byte-for-byte copy of sector 0 *)
+Theorem C06_image_boot_sector : forall o ts im0 bs t im, builder_range o -> ts < 4294967296 -> bytes_ok im0 ->
+  format_boot_sector_validated o ts = Ok (bs, t) -> format_image o ts im0 = Ok im ->
+  img_read im 0 512 = fmt_serialize_boot bs /\
+  (forall x, 512 <= x < fb_bytes_per_sector (fbs_bpb bs) -> img_get im x = 0) /\
+  (t = Format.Fat32 -> forall i, i < fb_bytes_per_sector (fbs_bpb bs) ->
+                         img_get im (fi_backup_pos (fbs_bpb bs) + i) = img_get im i).
+Proof. exact image_boot_sector. Qed.
+
+(* e. frame: every byte outside the boot sector, (FAT32) FS-info and backup sectors, the FAT copies and the root
+      directory keeps the value the device held before: nothing else is written *)
+Theorem C06_image_frame : forall o ts im0 bs t im, builder_range o -> ts < 4294967296 -> bytes_ok im0 ->
+  format_boot_sector_validated o ts = Ok (bs, t) -> format_image o ts im0 = Ok im ->
+  forall x, fi_written (fbs_bpb bs) t x = false -> img_get im x = img_get im0 x.
+Proof. exact image_frame. Qed.
+
+(* c. the root directory (FAT12/16: the whole fixed region; FAT32: the whole root cluster) is zero apart from the
+      32-byte label entry at its start (name, attribute VOLUME_ID, everything else 0), whatever the device held; the
+      independent decoder Spec/Abs.v finds no entry, no issue and exactly the label - unless the label starts with
+      0x00 (end marker) or 0xE5 (deleted marker), in which case it finds no label *)
+Theorem C06_image_root_dir : forall o ts im0 bs t im, builder_range o -> ts < 4294967296 -> bytes_ok im0 ->
+  format_boot_sector_validated o ts = Ok (bs, t) -> format_image o ts im0 = Ok im ->
+  (forall i, i < fi_root_len (fbs_bpb bs) t ->
+     img_get im (fi_root_pos (fbs_bpb bs) + i) = nth (N.to_nat i) (label_bytes o) 0) /\
+  (forall n fat32, (32 <= n)%nat -> N.of_nat n <= fi_root_len (fbs_bpb bs) t ->
+     Abs.dir_scan (Abs.slots_of (img_read im (fi_root_pos (fbs_bpb bs)) n)) 0 [] fat32 = ([], expected_labels o, [])).
+Proof. exact image_root_dir. Qed.
+
+(* b. the FAT copies are byte-identical; entry 0 = media byte with all higher bits set, entry 1 = all ones; every data
+      cluster 2 .. clusters+1 is free - except the FAT32 root cluster 2 (end of chain) and except cluster numbers
+      >= 0x0FFFFFF0, which are Bad (data_val; they exist only on FAT32 volumes of more than 268435438 clusters); the
+      spare entries after the last cluster up to the end of the table are end-of-chain, or Bad inside
+      0x0FFFFFF0..0x0FFFFFFF (spare_val), so no scan can take them for free clusters *)
+Theorem C06_image_fat : forall o ts im0 bs t im, builder_range o -> ts < 4294967296 -> bytes_ok im0 ->
+  format_boot_sector_validated o ts = Ok (bs, t) -> format_image o ts im0 = Ok im ->
+  let s := fi_fat_store im (fbs_bpb bs) in
+  copies_equal s /\ reserved_entries_ok t s (o_media o) /\
+  (forall x, 2 <= x < sp_clusters (fbs_bpb bs) + 2 ->
+     val_ft (to_fat_type t) s x = if sp_is32 t && (x =? 2) then Eoc else data_val x) /\
+  (forall x, sp_clusters (fbs_bpb bs) + 2 <= x < sp_fat_entries (fbs_bpb bs) t -> val_ft (to_fat_type t) s x = spare_val x).
+Proof. exact image_fat. Qed.
+
+(* data_val / spare_val are Free / EndOfChain below 0x0FFFFFF0, and a FAT12/16 table never reaches that number *)
+Theorem C06_image_fat_values_small : forall x, x < 268435440 -> data_val x = Free /\ spare_val x = Eoc.
+Proof. exact fat_values_small. Qed.
+Theorem C06_image_fat1216_small : forall o ts bs t, builder_range o -> ts < 4294967296 ->
+  format_boot_sector_validated o ts = Ok (bs, t) -> t <> Format.Fat32 -> sp_fat_entries (fbs_bpb bs) t <= 268435440.
+Proof. exact small_fat_entries. Qed.
+
+(* d. free space, counted over the table itself = all clusters, minus the root cluster on FAT32, minus the clusters in
+      the BAD range (bad_range_clusters total = total + 2 - 0x0FFFFFF0, i.e. 0 up to 268435438 clusters, at most 6); the
+      FS-info sector carries exactly this count, the hint 3 (a data cluster) and its signatures, zero padded to the
+      sector end *)
+Theorem C06_image_free_space : forall o ts im0 bs t im, builder_range o -> ts < 4294967296 -> bytes_ok im0 ->
+  format_boot_sector_validated o ts = Ok (bs, t) -> format_image o ts im0 = Ok im ->
+  let b := fbs_bpb bs in
+  let total := sp_clusters b in
+  let free := count_spec fstore (val_ft (to_fat_type t)) (fi_fat_store im b) 2 (N.to_nat total) in
+  free = (if sp_is32 t then total - 1 else total) - bad_range_clusters total /\
+  (t <> Format.Fat32 -> bad_range_clusters total = 0) /\
+  (t = Format.Fat32 ->
+     img_read im (fi_fsinfo_pos b) 512 = fsinfo_bytes free 3 /\
+     (forall x, 512 <= x < fb_bytes_per_sector b -> img_get im (fi_fsinfo_pos b + x) = 0) /\
+     img_u32 im (fi_fsinfo_pos b + 488) = free /\ img_u32 im (fi_fsinfo_pos b + 492) = 3 /\ 3 < total + 2).
+Proof. exact image_free_space. Qed.
+
+(* in particular: the FS-info count is the table's count on every FAT32 volume ... *)
+Theorem C06_image_fsinfo_count_exact : forall o ts im0 bs im, builder_range o -> ts < 4294967296 -> bytes_ok im0 ->
+  format_boot_sector_validated o ts = Ok (bs, Format.Fat32) -> format_image o ts im0 = Ok im ->
+  img_u32 im (fi_fsinfo_pos (fbs_bpb bs) + 488) =
+    count_spec fstore val32 (fi_fat_store im (fbs_bpb bs)) 2 (N.to_nat (sp_clusters (fbs_bpb bs))).
+Proof. exact image_fsinfo_count_exact. Qed.
+
+(* ... including the largest one (270532604 sectors of 512 bytes, 512-byte clusters, one FAT: 268435444 clusters, the 6
+   clusters 0x0FFFFFF0..0x0FFFFFF5 are Bad, FS-info and table both say 268435437; before the fix of format_volume
+   (free_cluster_count = total - 1) the FS-info sector said 268435443) *)
+Theorem C06_image_bad_range_volume_counts :
+  exists bs, format_boot_sector_validated bad_range_request 270532604 = Ok (bs, Format.Fat32) /\
+    sp_clusters (fbs_bpb bs) = 268435444 /\ bad_range_clusters (sp_clusters (fbs_bpb bs)) = 6 /\
+    forall im0, bytes_ok im0 ->
+      exists im, format_image bad_range_request 270532604 im0 = Ok im /\
+        img_u32 im (fi_fsinfo_pos (fbs_bpb bs) + 488) = 268435437 /\
+        count_spec fstore val32 (fi_fat_store im (fbs_bpb bs)) 2 (N.to_nat (sp_clusters (fbs_bpb bs))) = 268435437 /\
+        (forall x, 268435440 <= x < 268435446 -> val32 (fi_fat_store im (fbs_bpb bs)) x = Bad).
+Proof. exact bad_range_volume_counts. Qed.
+
+(* f. the writes never panic: format_volume as a whole succeeds exactly when the sizing/validation step accepts, and
+      fails only with InvalidInput (before the first write) *)
+Theorem C06_image_total : forall o ts im0, builder_range o -> ts < 4294967296 -> bytes_ok im0 ->
+  format_image o ts im0 <> Panic /\ format_image o ts im0 <> OutOfFuel /\
+  (forall e, format_image o ts im0 = Err e -> e = EInvalidInput) /\
+  ((exists im, format_image o ts im0 = Ok im) <-> (exists r, format_boot_sector_validated o ts = Ok r)).
+Proof. exact image_total. Qed.
+
+(* g. tie to the independent decoder (Spec/Abs.v, written from the FAT specification): the image decodes to the geometry
+      of its boot sector - in particular to the cluster count and FAT width of part 1 - and to the EMPTY volume: no root
+      entry, no decode issue, the label, the root chain [2] on FAT32, FS-info free word = the decoder's own count of free
+      clusters (hint 3), and no well-formedness issue of Spec/Wf.v (no lost cluster, cross link, bad chain, ...) for any
+      case folding *)
+Theorem C06_image_decodes_empty : forall o ts im0 bs t im fold, builder_range o -> ts < 4294967296 -> bytes_ok im0 ->
+  format_boot_sector_validated o ts = Ok (bs, t) -> format_image o ts im0 = Ok im ->
+  let b := fbs_bpb bs in
+  let total := sp_clusters b in
+  let v := Abs.abs im in
+  Abs.parse_geom im = geom_of b /\
+  Abs.g_clusters (geom_of b) = total /\ Abs.g_bits (geom_of b) = bits_per_fat_entry t /\
+  Abs.v_root v = [] /\ Abs.v_root_issues v = [] /\ Abs.v_labels v = expected_labels o /\
+  Abs.v_root_chain v = (if sp_is32 t then Some [2] else None) /\
+  (t = Format.Fat32 -> Abs.v_fsinfo_free v = Abs.count_free (Abs.parse_geom im) im /\ Abs.v_fsinfo_next v = 3) /\
+  Abs.count_free (Abs.parse_geom im) im = (if sp_is32 t then total - 1 else total) - bad_range_clusters total /\
+  Wf.wf_issues fold im = [].
+Proof. exact image_decodes_empty. Qed.
+
+(* ---------------------------------------------------------------- examples: the hypotheses are satisfiable and the bytes
+   are the expected ones.  64 sectors, FAT12, 16 root entries, label "ABCDEFGHIJK", on a device filled with 0xD1. *)
+Definition ex_img_request : fmt_options :=
+  {| o_bytes_per_sector := 512; o_total_sectors := None; o_bytes_per_cluster := None; o_fat_type := None;
+     o_max_root_dir_entries := 16; o_fats := 2; o_media := 248; o_sectors_per_track := 32; o_heads := 64;
+     o_drive_num := None; o_volume_id := 305419896;
+     o_volume_label := Some [65; 66; 67; 68; 69; 70; 71; 72; 73; 74; 75] |}.
+Example ex_img_request_in_range : builder_range ex_img_request.
+Proof.
+  unfold builder_range; cbn [ex_img_request o_bytes_per_sector o_bytes_per_cluster o_max_root_dir_entries o_fats o_media
+    o_sectors_per_track o_heads o_drive_num o_volume_id o_volume_label].
+  repeat split; intros; try Lia.lia; try discriminate; try reflexivity;
+    match goal with H : Some _ = Some _ |- _ => injection H as <- end; try reflexivity; try Lia.lia.
+  repeat constructor; Lia.lia.
+Qed.
+Example ex_img_fat12 :
+  exists bs, format_boot_sector_validated ex_img_request 64 = Ok (bs, Format.Fat12) /\
+    bytes_ok (img_empty 209) /\
+    sp_clusters (fbs_bpb bs) = 60 /\ fi_fat_pos (fbs_bpb bs) = 512 /\ fi_root_pos (fbs_bpb bs) = 1536 /\
+    fi_root_len (fbs_bpb bs) Format.Fat12 = 512 /\
+    match format_image ex_img_request 64 (img_empty 209) with
+    | Ok im =>
+        img_read im 510 5 = [85; 170; 248; 255; 255] /\              (* signature, then FAT copy 0: F8 FF FF *)
+        img_read im 1024 4 = [248; 255; 255; 0] /\                   (* FAT copy 1 *)
+        img_read im 602 6 = [0; 0; 0; 255; 255; 255] /\              (* entries 60, 61 free; 62, 63 end of chain *)
+        img_read im 1536 13 = [65; 66; 67; 68; 69; 70; 71; 72; 73; 74; 75; 8; 0] /\
+        img_read im 2046 4 = [0; 0; 209; 209] /\                     (* end of the root region, then untouched data area *)
+        Abs.v_labels (Abs.abs im) = [[65; 66; 67; 68; 69; 70; 71; 72; 73; 74; 75]] /\
+        Abs.v_root (Abs.abs im) = [] /\ Wf.wf_issues (fun l => l) im = [] /\
+        Abs.count_free (Abs.parse_geom im) im = 60
+    | _ => False
+    end.
+Proof.
+  eexists. split; [vm_compute; reflexivity|].
+  split; [apply img_empty_bytes_ok; Lia.lia|]. vm_compute. repeat (split; [reflexivity|]). reflexivity.
+Qed.
+
+(* a FAT32 example (66100 sectors, 512-byte clusters, one FAT, device filled with 0xD1, decoded by Spec/Abs.v and checked by
+   Spec/Wf.v) is in Proofs/FormatImageExamples.v: its evaluation takes ~40 s and is therefore not repeated at every check *)
+
 Print Assumptions C06_format_total.
 Print Assumptions C06_format_err_kind.
 Print Assumptions C06_format_ok_valid.
@@ -159,3 +328,14 @@ Print Assumptions C06_format_default_succeeds.
 Print Assumptions C06_format_default_rejects_small.
 Print Assumptions C06_format_closed_form.
 Print Assumptions C06_format_zero_clusters_witness.
+Print Assumptions C06_image_boot_sector.
+Print Assumptions C06_image_frame.
+Print Assumptions C06_image_root_dir.
+Print Assumptions C06_image_fat.
+Print Assumptions C06_image_free_space.
+Print Assumptions C06_image_fat_values_small.
+Print Assumptions C06_image_fat1216_small.
+Print Assumptions C06_image_fsinfo_count_exact.
+Print Assumptions C06_image_bad_range_volume_counts.
+Print Assumptions C06_image_total.
+Print Assumptions C06_image_decodes_empty.
